@@ -9,10 +9,12 @@ def cellText : Cell → Bytes
   | .str s => s
   | .num lex => lex
 
-/-- a number text contains neither the quote nor the separator -/
+/-- a cell that a line of a C-string based file can hold: no NUL (the parser's `while ((c = *p++))` stops
+    there, `fgets`/`strlen` cut the line there) and no line break (the reader never presents LF, or a CR before
+    it, as part of a row); a number text moreover contains neither the quote nor the separator -/
 def CellOK (sep : UInt8) : Cell → Prop
-  | .str _ => True
-  | .num lex => 34 ∉ lex ∧ sep ∉ lex
+  | .str s => 0 ∉ s ∧ 10 ∉ s ∧ 13 ∉ s
+  | .num lex => 34 ∉ lex ∧ sep ∉ lex ∧ 0 ∉ lex ∧ 10 ∉ lex ∧ 13 ∉ lex
 
 theorem writeRow_cons (sep q : UInt8) (c : Cell) (t : List Cell) :
     writeRow sep q (c :: t) = writeCell sep q c ++ t.flatMap (fun x => sep :: writeCell sep q x) := by
@@ -60,7 +62,7 @@ theorem parse_cell_end (sep : UInt8) (c : Cell) (hc : CellOK sep c) :
     parseCells sep .base (writeCell sep 34 c) [] = [cellText c] := by
   cases c with
   | num lex =>
-    have := parse_plain sep lex [] [] hc.1 hc.2
+    have := parse_plain sep lex [] [] hc.1 hc.2.1
     simpa [writeCell, cellText, parseCells] using this
   | str s =>
     unfold writeCell
@@ -83,7 +85,7 @@ theorem parse_cell_sep (sep : UInt8) (hsep : sep ≠ 34) (c : Cell) (hc : CellOK
   have hs34 : ¬ sep = 34 := hsep
   cases c with
   | num lex =>
-    have := parse_plain sep lex (sep :: more) [] hc.1 hc.2
+    have := parse_plain sep lex (sep :: more) [] hc.1 hc.2.1
     simp only [writeCell, cellText, this, List.nil_append, parseCells, hs34, if_false, if_true]
   | str s =>
     unfold writeCell
